@@ -60,3 +60,111 @@ package middleware
 //@   let md1 = ptr(metadata.MD, mdOutOf(result))
 //@   ensures* forwarded: tv != nil ==> mdFirst(md1, "trace-id") == unboxStr(tv.val) && mdFirst(md1, "parent-span-id") == unboxStr(sv.val)
 //@   ensures* untouched: tv == nil ==> result == ctx
+
+// ---- the interceptors hand the enriched context on (C19: "HTTP and gRPC (unary and stream) variants") ------
+// Each interceptor calls the next handler / invoker exactly once, with the context its helper produced (for
+// streams: with a stream whose Context() is that context, wrapping the original stream). The helper's result is
+// recorded in ghost state at the call; the next handler's call-site precondition compares against it.
+//@ ghost spec var enrichedCtx Iface
+//@ ghost spec var nextCalls Int
+//@ func (*WrappedServerStream).Context
+//@   params w
+//@   property C19
+//@   ensures* the.wrapped.context: result == w.ctx
+//@   modifies nothing
+//@ func UnaryRequestID$1
+//@   params ctx req info handler
+//@   property C19
+//@   captures o:*middleware.RequestIDOptions
+//@   requires ctx != nil && o != nil && handler != nil && envReadable
+//@   requires ctxVal(ctx, ridKey()) == nil || typeIs(ctxVal(ctx, ridKey()), string)
+//@   callspec generateRequestID params c opts
+//@       ensures enrichedCtx == result
+//@       modifies enrichedCtx
+//@   callspec handler params c r
+//@       requires* the.context.with.the.request.id: c == enrichedCtx && r == req
+//@       ensures nextCalls == old(nextCalls) + 1
+//@       modifies all
+//@       modifies nextCalls
+//@   ensures* next.handler.called.once: nextCalls == old(nextCalls) + 1
+//@ func StreamRequestID$1
+//@   params srv ss info handler
+//@   property C19
+//@   captures o:*middleware.RequestIDOptions
+//@   requires ss != nil && o != nil && handler != nil && envReadable
+//   -- the stream's own context is a context whose request-ID slot, if set, holds a string (ASSUMED of the transport)
+//@   callspec Context
+//@       ensures result != nil && (ctxVal(result, ridKey()) == nil || typeIs(ctxVal(result, ridKey()), string))
+//@       modifies nothing
+//@   callspec generateRequestID params c opts
+//@       ensures enrichedCtx == result
+//@       modifies enrichedCtx
+//@   callspec handler params sv st
+//@       requires* a.stream.with.the.request.id.context: sv == srv && typeIs(st, *WrappedServerStream) && st.(*WrappedServerStream).ctx == enrichedCtx && st.(*WrappedServerStream).ServerStream == ss
+//@       ensures nextCalls == old(nextCalls) + 1
+//@       modifies all
+//@       modifies nextCalls
+//@   ensures* next.handler.called.once: nextCalls == old(nextCalls) + 1
+//@ func UnaryServerTrace$1
+//@   params ctx req info handler
+//@   property C19
+//@   captures o:*middleware.TraceOptions
+//@   requires ctx != nil && o != nil && info != nil && handler != nil && envReadable
+//@   requires middleware.TraceIDKey != middleware.TraceSpanIDKey && middleware.TraceIDKey != middleware.TraceParentSpanIDKey && middleware.TraceSpanIDKey != middleware.TraceParentSpanIDKey
+//@   callspec withTrace params c m opts
+//@       ensures enrichedCtx == result
+//@       modifies enrichedCtx
+//@   callspec handler params c r
+//@       requires* the.traced.context: c == enrichedCtx && r == req
+//@       ensures nextCalls == old(nextCalls) + 1
+//@       modifies all
+//@       modifies nextCalls
+//@   ensures* next.handler.called.once: nextCalls == old(nextCalls) + 1
+//@ func StreamServerTrace$1
+//@   params srv ss info handler
+//@   property C19
+//@   captures o:*middleware.TraceOptions
+//@   callspec Context
+//@       ensures result != nil
+//@       modifies nothing
+//@   requires ss != nil && o != nil && info != nil && handler != nil && envReadable
+//@   requires middleware.TraceIDKey != middleware.TraceSpanIDKey && middleware.TraceIDKey != middleware.TraceParentSpanIDKey && middleware.TraceSpanIDKey != middleware.TraceParentSpanIDKey
+//@   callspec withTrace params c m opts
+//@       ensures enrichedCtx == result
+//@       modifies enrichedCtx
+//@   callspec handler params sv st
+//@       requires* a.stream.with.the.traced.context: sv == srv && typeIs(st, *WrappedServerStream) && st.(*WrappedServerStream).ctx == enrichedCtx && st.(*WrappedServerStream).ServerStream == ss
+//@       ensures nextCalls == old(nextCalls) + 1
+//@       modifies all
+//@       modifies nextCalls
+//@   ensures* next.handler.called.once: nextCalls == old(nextCalls) + 1
+//@ func UnaryClientTrace$1
+//@   params ctx method req reply cc invoker opts
+//@   property C19
+//@   requires ctx != nil
+//@   requires ctxVal(ctx, iface(string, middleware.TraceIDKey)) == nil || typeIs(ctxVal(ctx, iface(string, middleware.TraceIDKey)), string)
+//@   requires ctxVal(ctx, iface(string, middleware.TraceIDKey)) != nil ==> typeIs(ctxVal(ctx, iface(string, middleware.TraceSpanIDKey)), string)
+//@   callspec setTrace params c
+//@       ensures enrichedCtx == result
+//@       modifies enrichedCtx
+//@   callspec invoker params c m rq rp conn o
+//@       requires* the.context.with.the.forwarded.trace: c == enrichedCtx && m == method && rq == req && rp == reply
+//@       ensures nextCalls == old(nextCalls) + 1
+//@       modifies all
+//@       modifies nextCalls
+//@   ensures* invoker.called.once: nextCalls == old(nextCalls) + 1
+//@ func StreamClientTrace$1
+//@   params ctx desc cc method streamer opts
+//@   property C19
+//@   requires ctx != nil
+//@   requires ctxVal(ctx, iface(string, middleware.TraceIDKey)) == nil || typeIs(ctxVal(ctx, iface(string, middleware.TraceIDKey)), string)
+//@   requires ctxVal(ctx, iface(string, middleware.TraceIDKey)) != nil ==> typeIs(ctxVal(ctx, iface(string, middleware.TraceSpanIDKey)), string)
+//@   callspec setTrace params c
+//@       ensures enrichedCtx == result
+//@       modifies enrichedCtx
+//@   callspec streamer params c d conn m o
+//@       requires* the.context.with.the.forwarded.trace: c == enrichedCtx && m == method
+//@       ensures nextCalls == old(nextCalls) + 1
+//@       modifies all
+//@       modifies nextCalls
+//@   ensures* streamer.called.once: nextCalls == old(nextCalls) + 1
